@@ -444,8 +444,12 @@ def template_cases(st):
             add("toplevel-tag-nested", f"({s3}, ({mk}/3 s, ({s1}))), ({mk}/3 s, ({s1}))")
             add("duration-without-group", f"({mk}/3 s)")
             add("duration-extra-tag", f"({mk}/3 s, {s2}, ({s1}))")
+            # more than the one inner group the tag takes
+            add("duration-extra-tag", f"({mk}/3 s, ({s1}), ({s2}))")
+            add("duration-extra-tag", f"(({s1}), {mk}/3 s, ({s2}), ({s3}))")
             add("unknown-unit", f"({mk}/3 zzq, ({s1}))")
         add("valid:duration", f"(Delay/3 s, Duration/2 s, ({s1}))")
+        add("duration-extra-tag", f"(Delay/3 s, Duration/2 s, ({s1}), ({s2}))")
         if attr("Event-context", "topLevelTagGroup"):
             # Delay may share its group with a temporal tag only: any other top-level-group tag beside it, in either order
             add("two-toplevel-tags", f"(Delay/5 s, Event-context, ({s1}))")
